@@ -179,6 +179,17 @@ func c05Apply(res *fw.Result, st *c05Base, blk c05Block, trackedForModel []int, 
 		}
 		st.leaves = append(st.leaves, blk.Added[k])
 		newProofs = append(newProofs, v.SE.MerkleProof)
+		// a client that stores the new element and then refreshes ALL its elements with the same update
+		// (the usual order) must keep a valid proof for it: the update is a no-op on elements it added
+		se := types.StateElement{LeafIndex: v.SE.LeafIndex, MerkleProof: accCloneProof(v.SE.MerkleProof)}
+		if p, msg := fw.Recover(func() { u.UpdateElementProof(&se) }); p {
+			res.Violate(fw.Violation{Key: "c05-panic:update-apply:added-leaf", What: fmt.Sprintf("ApplyUpdate.UpdateElementProof panicked for leaf %d, which this very update added: %s", v.SE.LeafIndex, msg), Replay: replay})
+			ok = false
+		} else if !accEqProof(se.MerkleProof, v.SE.MerkleProof) {
+			res.Violate(fw.Violation{Key: "c05-added-leaf-proof-changed", What: fmt.Sprintf("UpdateElementProof of the update that added leaf %d changed its (already current) proof", v.SE.LeafIndex), Replay: replay,
+				Expected: accWHashes(v.SE.MerkleProof), Observed: accWHashes(se.MerkleProof)})
+			ok = false
+		}
 	}
 	st.proofs = newProofs
 	ok = c05CheckState(res, "apply", &st.acc, st.leaves, st.proofs, replay) && ok
